@@ -19,9 +19,10 @@ ModelOffer(f, r, fix) == IF SizeSet(f) = {} THEN {}
 SomeInRange(f, r) == InRange(f, r[1], r[3], ByBits) # {} /\ InRange(f, r[1], r[3], BySize) # {}
 
 Clauses(f, r, got) ==
-    IF got = 0 THEN
+    IF got \in {0, -2} THEN        \* 0: SSHException "no moduli available"; -2: any other exception
          (IF SomeInRange(f, r) THEN {"P_no_offer_with_group_in_range"} ELSE {})
          \cup (IF ValidIdx(f) # {} THEN {"C_raised_with_moduli"} ELSE {})
+         \cup (IF got = -2 THEN {"C_raised_other_than_no_moduli"} ELSE {})
     ELSE IF got \notin 1..Len(f) THEN {"P_offered_unknown_group"}
     ELSE (IF Valid(f[got]) THEN {} ELSE {"P_offered_rejected_line"})
          \cup (IF ~Valid(f[got]) \/ got \in Acceptable(f, r[1], r[2], r[3]) THEN {}
@@ -34,9 +35,10 @@ Clauses(f, r, got) ==
 
 TInit == /\ tid \in 1..Len(Batch) /\ l = 1 /\ bad = {}
          /\ file = <<>> /\ n = 0 /\ pack = <<>> /\ discarded = {} /\ req = <<>> /\ status = "reading" /\ offer = {}
+         /\ cache = {} /\ nfiles = 1 /\ prev = <<>>
 TNext == /\ l = 1 /\ l' = 2 /\ tid' = tid
          /\ file' = R.lines /\ n' = Len(R.lines) /\ req' = R.req
-         /\ UNCHANGED <<pack, discarded, status, offer>>
+         /\ UNCHANGED <<pack, discarded, status, offer, cache, nfiles, prev>>
          /\ bad' = Clauses(R.lines, R.req, R.got)
 TSpec == TInit /\ [][TNext]_tvars
 Report == /\ (bad # {} => PrintT(<<"VERDICT", tid, bad>>))
